@@ -86,6 +86,9 @@ def states():
         out.append(dict(id='combo:' + ('+'.join(a.split('.')[-1] for a in listed) or 'none'), listed=listed, ruled=list(CANON),
                         own_iam=False, legacy=False))
     out.append(dict(id='iam-override', listed=[OPS, IAM, LOC], ruled=list(CANON), own_iam=True, legacy=False))
+    # the API defines SetIamPolicy itself, the YAML configures only the *other* IAM RPCs: nothing is overridden
+    out.append(dict(id='iam-own-rpc-not-configured', listed=[IAM], ruled=['GetIamPolicy', 'TestIamPermissions'], own_iam=True, legacy=False))
+    out.append(dict(id='iam-own-rpc-only-one-configured', listed=[IAM, OPS], ruled=['SetIamPolicy', 'GetOperation'], own_iam=True, legacy=False))
     out.append(dict(id='legacy-add-iam-methods', listed=[], ruled=[], own_iam=False, legacy=True))
     out.append(dict(id='legacy-add-iam-methods+iam-mixin', listed=[IAM], ruled=BY_API[IAM], own_iam=False, legacy=True))
     out.append(dict(id='no-yaml', listed=None, ruled=[], own_iam=False, legacy=False))
@@ -97,8 +100,16 @@ def expected_present(st):
         return set()
     pres = {m for m in st['ruled'] if CANON[m][0] in st['listed']}
     if st['own_iam']:
-        pres -= set(BY_API[IAM])
+        pres.discard('SetIamPolicy')      # yields to the API's own RPC of that name
     return pres
+
+
+def unjudged(st):
+    """When the API's own SetIamPolicy overrides a *configured* SetIamPolicy mixin, the statement does not say whether the
+    other configured IAM mixins stay: observed, not judged."""
+    if st['own_iam'] and 'SetIamPolicy' in st['ruled'] and st['listed'] and IAM in st['listed']:
+        return {'GetIamPolicy', 'TestIamPermissions'}
+    return set()
 
 
 def build(st, transport):
@@ -126,7 +137,7 @@ def make_job(st, transport):
     return dict(id=f'{st["id"]}|{transport}', req=req.SerializeToString(), opt_files=of, probe='mc.probes.mixins',
                 probe_args=dict(package=names.import_package(P), transport=transport, canon={k: list(v) for k, v in CANON.items()},
                                 rules={k: [v[0], v[1], v[2], [list(x) for x in v[3]]] for k, v in RULES.items()}, values=VALUES,
-                                legacy=st['legacy'], own_iam=st['own_iam']),
+                                legacy=st['legacy'], own_iam=st['own_iam'], ruled=st['ruled']),
                 _st=st, _transport=transport)
 
 
@@ -168,7 +179,8 @@ def run(ctx, only=None):
                 want = want | {'SetIamPolicy'}        # the API's own RPC
             for m in CANON:
                 ctx.nontrivial_case(f'{sid}|{m}|{kind}')
-            if got != want:
+            amb = unjudged(st)
+            if got - amb != want - amb:
                 bad('presence', f'{kind}|missing={sorted(want - got)}|extra={sorted(got - want)}',
                     f'{kind} client offers {sorted(got)}, configuration implies {sorted(want)}')
         calls += obs['calls']
